@@ -127,6 +127,8 @@ func batchSize(kind string) int {
 		return 2
 	case "cachekey":
 		return 6
+	case "bulk":
+		return 3
 	}
 	return 1
 }
@@ -300,7 +302,7 @@ func deadCase(d runDesc) string {
 		return "CHh [] true"
 	case "metawait":
 		return "CWait [] true"
-	case "cachekey":
+	case "cachekey", "bulk":
 		return "CShard [] [] [] true"
 	}
 	return "CMeta [] true"
@@ -353,6 +355,8 @@ func childMain(in, out string) {
 			r = runMetaWait(env, d, i)
 		case "cachekey":
 			r = runCacheKey(env, d, i)
+		case "bulk":
+			r = runBulk(env, d, i)
 		default:
 			panic("unknown kind " + d.Kind)
 		}
